@@ -9,6 +9,7 @@ import (
 	"go/token"
 	"go/types"
 	"os"
+	"regexp"
 	"sort"
 	"strconv"
 	"strings"
@@ -3803,5 +3804,549 @@ func ruleSaturated(c *Ctx, r *Rep) {
 	}
 	if n == 0 {
 		r.Undecided("saturated:census", token.NoPos, "no arithmetic on a JSON-derived integer found outside the operators")
+	}
+}
+
+// ---------------------------------------------------------------------------------------------------------------------
+// R-C08-importbound: recursion driven by module files is bounded.
+
+func init() {
+	reg(&Rule{ID: "R-C08-importbound", Props: []string{"C08", "C18"}, Floor: 1,
+		Doc: "every cycle of compiler methods that loads a module through the module loader contains a depth test: a counter field incremented on the way in and compared with a constant, with an error return — a module that imports itself (or two that import each other) otherwise recurses until the Go runtime kills the process with a stack overflow no recover can catch",
+		Run: ruleImportBound})
+	addDecided("C08", " The recursion through module files is bounded by a depth test (R-C08-importbound; D37).")
+}
+
+func ruleImportBound(c *Ctx, r *Rep) {
+	info := c.Gojq.TypesInfo
+	decls := map[types.Object]*ast.FuncDecl{}
+	for _, fd := range c.Decls(c.Gojq) {
+		if o := info.Defs[fd.Name]; o != nil {
+			decls[o] = fd
+		}
+	}
+	edges := map[*ast.FuncDecl][]*ast.FuncDecl{}
+	loads := map[*ast.FuncDecl]bool{}
+	for _, fd := range decls {
+		ast.Inspect(fd.Body, func(m ast.Node) bool {
+			call, ok := m.(*ast.CallExpr)
+			if !ok {
+				return true
+			}
+			if sel, ok := call.Fun.(*ast.SelectorExpr); ok && strings.HasPrefix(sel.Sel.Name, "LoadModule") {
+				loads[fd] = true
+			}
+			if o := callee(info, call); o != nil {
+				if t := decls[o]; t != nil {
+					edges[fd] = append(edges[fd], t)
+				}
+			}
+			return true
+		})
+	}
+	// functions on a cycle through a loading function
+	reach := func(from *ast.FuncDecl) map[*ast.FuncDecl]bool {
+		seen := map[*ast.FuncDecl]bool{}
+		var st []*ast.FuncDecl
+		st = append(st, edges[from]...)
+		for len(st) > 0 {
+			f := st[len(st)-1]
+			st = st[:len(st)-1]
+			if seen[f] {
+				continue
+			}
+			seen[f] = true
+			st = append(st, edges[f]...)
+		}
+		return seen
+	}
+	n := 0
+	for fd := range loads {
+		rs := reach(fd)
+		if !rs[fd] {
+			continue // loads a module but is not recursive
+		}
+		n++
+		// the cycle: functions reachable from fd that reach fd
+		var cyc []*ast.FuncDecl
+		for f := range rs {
+			if reach(f)[fd] {
+				cyc = append(cyc, f)
+			}
+		}
+		guarded := ""
+		for _, f := range cyc {
+			ast.Inspect(f.Body, func(m ast.Node) bool {
+				ifs, ok := m.(*ast.IfStmt)
+				if !ok {
+					return true
+				}
+				// if x.f++; x.f > K { return err }   or   x.f++ … if x.f > K { return err }
+				cmpField := ""
+				ast.Inspect(ifs.Cond, func(q ast.Node) bool {
+					b, ok := q.(*ast.BinaryExpr)
+					if !ok || (b.Op != token.GTR && b.Op != token.GEQ) {
+						return true
+					}
+					if _, ok := constInt(info, b.Y); !ok {
+						return true
+					}
+					if sel, ok := unparen(b.X).(*ast.SelectorExpr); ok {
+						cmpField = types.ExprString(sel)
+					}
+					return true
+				})
+				if cmpField == "" {
+					return true
+				}
+				returnsErr := false
+				for _, st := range ifs.Body.List {
+					if rs, ok := st.(*ast.ReturnStmt); ok && len(rs.Results) > 0 {
+						if id, ok := unparen(rs.Results[len(rs.Results)-1]).(*ast.Ident); !ok || id.Name != "nil" {
+							returnsErr = true
+						}
+					}
+				}
+				incremented := false
+				ast.Inspect(f.Body, func(q ast.Node) bool {
+					if inc, ok := q.(*ast.IncDecStmt); ok && inc.Tok == token.INC && types.ExprString(unparen(inc.X)) == cmpField && inc.Pos() <= ifs.Cond.Pos() {
+						incremented = true
+					}
+					return true
+				})
+				if returnsErr && incremented {
+					// the test must lie on every cycle: without f, fd no longer reaches itself
+					seen := map[*ast.FuncDecl]bool{f: true}
+					st := append([]*ast.FuncDecl(nil), edges[fd]...)
+					again := false
+					for len(st) > 0 {
+						x := st[len(st)-1]
+						st = st[:len(st)-1]
+						if x == fd && f != fd {
+							again = true
+							break
+						}
+						if seen[x] {
+							continue
+						}
+						seen[x] = true
+						st = append(st, edges[x]...)
+					}
+					if !again {
+						guarded = declKey(f) + ": " + c.Src(ifs.Cond)
+					}
+				}
+				return true
+			})
+		}
+		var names []string
+		for _, f := range cyc {
+			names = append(names, declKey(f))
+		}
+		sort.Strings(names)
+		if len(names) > 6 {
+			names = append(names[:6], fmt.Sprintf("… %d more", len(names)-6))
+		}
+		r.Check(guarded != "", "importbound:"+declKey(fd), fd.Pos(), "the recursion %v, which loads module files, is bounded by a depth test that lies on every cycle (%s): %v — without one, `import \"a\" as a;` inside a.jq overflows the stack: a fatal error, not an error value", names, guarded, guarded != "")
+	}
+	if n == 0 {
+		r.Undecided("importbound:census", token.NoPos, "no recursive compiler method loads modules (compileImport → compileModule → compileImport was expected)")
+	}
+}
+
+// ---------------------------------------------------------------------------------------------------------------------
+// R-C12-yamlbig: every number representation reaches the YAML encoder in a form it writes as a number.
+
+func init() {
+	reg(&Rule{ID: "R-C11-yamlkeys", Props: []string{"C11", "C12"}, Floor: 1,
+		Doc: "objects reach the YAML encoder as mapping nodes whose keys the command has sorted byte-wise, never as Go maps, whose keys the encoder would put in its own natural (number-aware) order: object key order on YAML output agrees with keys",
+		Run: ruleYAMLKeys})
+	addDecided("C11", " Object keys reach the YAML encoder already in code point order (R-C11-yamlkeys; D42).")
+	reg(&Rule{ID: "R-C12-yamlbig", Props: []string{"C12", "C10"}, Floor: 1,
+		Doc: "the value handed to the YAML encoder contains no *big.Int unless the encoder (the dependency's source is inspected) has a case for it: the encoder writes json.Number as a plain scalar but any other encoding.TextMarshaler as a string, which it quotes when the text looks like a number — so an integer beyond int64 reads back as a string",
+		Run: ruleYAMLBig})
+	addDecided("C12", " *big.Int never reaches the YAML encoder, which would write it as a quoted string (R-C12-yamlbig; D38).")
+}
+
+// yamlKeyFacts: per function that calls the YAML encoder: (the value is converted by a function with a map arm, that arm
+// sorts the keys byte-wise). Filled by ruleYAMLBig's walk, read by ruleYAMLKeys.
+var yamlKeyFacts = map[string][2]bool{}
+
+func ruleYAMLKeys(c *Ctx, r *Rep) {
+	sub := &Rep{c: c, rule: r.rule}
+	yamlKeyFacts = map[string][2]bool{}
+	ruleYAMLBig(c, sub)
+	if len(yamlKeyFacts) == 0 {
+		r.Undecided("yamlkeys:census", token.NoPos, "no call of the YAML encoder's Encode in the command")
+		return
+	}
+	for fn, f := range yamlKeyFacts {
+		ok := f[0] && f[1]
+		r.Check(ok, "yamlkeys:"+fn, token.NoPos, "%s hands the YAML encoder mapping nodes whose keys it has put in byte-wise (code point) order itself, not Go maps: %v — the encoder sorts the keys of a map in a natural, number-aware order: `{\"a10\":1,\"a2\":2,\"10\":1,\"9\":2}` is written \"9\", \"10\", a2, a10 while keys, JSON output and iteration give 10, 9, a10, a2", fn, ok)
+	}
+}
+
+func ruleYAMLBig(c *Ctx, r *Rep) {
+	p := c.Cli
+	info := p.TypesInfo
+	// premise, from the dependency: does its marshal dispatch treat *big.Int itself?
+	depHandles, depSeen := false, false
+	packages.Visit(c.All, nil, func(dp *packages.Package) {
+		if !strings.HasSuffix(dp.PkgPath, "/go-yaml") && !strings.HasSuffix(dp.PkgPath, "/yaml") && !strings.Contains(dp.PkgPath, "yaml.v") {
+			return
+		}
+		for _, f := range dp.Syntax {
+			ast.Inspect(f, func(m ast.Node) bool {
+				ts, ok := m.(*ast.TypeSwitchStmt)
+				if !ok {
+					return true
+				}
+				hasNumber, hasBig := false, false
+				for _, s := range ts.Body.List {
+					for _, e := range s.(*ast.CaseClause).List {
+						switch types.ExprString(e) {
+						case "json.Number":
+							hasNumber = true
+						case "*big.Int", "big.Int":
+							hasBig = true
+						}
+					}
+				}
+				if hasNumber && strings.HasSuffix(c.All[0].Fset.Position(ts.Pos()).Filename, "encode.go") {
+					depSeen = true
+					depHandles = depHandles || hasBig
+				}
+				return true
+			})
+		}
+	})
+	if !depSeen {
+		r.Undecided("yamlbig:dependency", token.NoPos, "the type switch of the YAML encoder that treats json.Number was not found in the dependency's encode.go")
+		return
+	}
+	n := 0
+	for _, fd := range c.Decls(p) {
+		ast.Inspect(fd.Body, func(m ast.Node) bool {
+			call, ok := m.(*ast.CallExpr)
+			if !ok || len(call.Args) != 1 {
+				return true
+			}
+			nm := calleeName(info, call)
+			if !strings.HasSuffix(nm, "Encoder.Encode") || !strings.Contains(strings.ToLower(nm), "yaml") {
+				return true
+			}
+			n++
+			key := "yamlbig:" + declKey(fd)
+			if depHandles {
+				r.OK(key, call.Pos(), "the YAML encoder has a case for *big.Int itself")
+				return true
+			}
+			// the argument is the result of a package function that turns *big.Int into json.Number
+			conv := false
+			arg := unparen(call.Args[0])
+			if id, ok := arg.(*ast.Ident); ok { // n, err := f(v); enc.Encode(n)
+				obj := info.ObjectOf(id)
+				ast.Inspect(fd.Body, func(q ast.Node) bool {
+					if as, ok := q.(*ast.AssignStmt); ok && len(as.Rhs) == 1 && len(as.Lhs) >= 1 {
+						if lid, ok := as.Lhs[0].(*ast.Ident); ok && info.ObjectOf(lid) == obj {
+							arg = unparen(as.Rhs[0])
+						}
+					}
+					return true
+				})
+			}
+			sortedKeys, mapSeen := false, false
+			if inner, ok := arg.(*ast.CallExpr); ok {
+				if f, ok := callee(info, inner).(*types.Func); ok && f.Pkg() == p.Types {
+					if d := c.Decl(p, f.Name()); d != nil {
+						ast.Inspect(d.Body, func(q ast.Node) bool {
+							cc, ok := q.(*ast.CaseClause)
+							if !ok {
+								return true
+							}
+							isMap := false
+							for _, e := range cc.List {
+								if types.ExprString(e) == "map[string]any" {
+									isMap = true
+								}
+							}
+							if !isMap {
+								return true
+							}
+							mapSeen = true
+							for _, st := range cc.Body {
+								ast.Inspect(st, func(w ast.Node) bool {
+									if cv, ok := w.(*ast.CallExpr); ok {
+										switch calleeName(info, cv) {
+										case "sort.Strings", "slices.Sort", "slices.Sorted":
+											sortedKeys = true
+										}
+									}
+									return true
+								})
+							}
+							return true
+						})
+					}
+				}
+			}
+			yamlKeyFacts[declKey(fd)] = [2]bool{mapSeen, sortedKeys}
+			if inner, ok := arg.(*ast.CallExpr); ok {
+				if f, ok := callee(info, inner).(*types.Func); ok && f.Pkg() == p.Types {
+					if d := c.Decl(p, f.Name()); d != nil {
+						ast.Inspect(d.Body, func(q ast.Node) bool {
+							cc, ok := q.(*ast.CaseClause)
+							if !ok {
+								return true
+							}
+							isBig := false
+							for _, e := range cc.List {
+								if types.ExprString(e) == "*big.Int" {
+									isBig = true
+								}
+							}
+							if !isBig {
+								return true
+							}
+							for _, st := range cc.Body {
+								ast.Inspect(st, func(w ast.Node) bool {
+									if cv, ok := w.(*ast.CallExpr); ok && types.ExprString(cv.Fun) == "json.Number" {
+										conv = true
+									}
+									return true
+								})
+							}
+							return true
+						})
+					}
+				}
+			}
+			r.Check(conv, key, call.Pos(), "%s hands the YAML encoder a value in which *big.Int has been replaced by json.Number: %v — the encoder writes every other TextMarshaler as a string, quoted when it looks like a number: `gojq -n --yaml-output '100000000000000000000'` prints \"100000000000000000000\", which --yaml-input reads back as a string", declKey(fd), conv)
+			return true
+		})
+	}
+	if n == 0 {
+		r.Undecided("yamlbig:census", token.NoPos, "no call of the YAML encoder's Encode in the command")
+	}
+}
+
+// ---------------------------------------------------------------------------------------------------------------------
+// R-C02-getpathkinds: getpath follows every step that navigation can take.
+
+func init() {
+	reg(&Rule{ID: "R-C02-getpathkinds", Props: []string{"C02", "C03"}, Floor: 1,
+		Doc: "the kinds of value funcGetpath lets funcIndex2 navigate include every kind for which funcIndex2 (and the slice it delegates to) yields a value: a path that path(f) emits after navigating a string (`\"abc\" | path(.[1:])`) must be one getpath can follow",
+		Run: ruleGetpathKinds})
+	addDecided("C02", " getpath admits every kind of value that navigation admits (R-C02-getpathkinds; D41).")
+}
+
+func ruleGetpathKinds(c *Ctx, r *Rep) {
+	info := c.Gojq.TypesInfo
+	caseKinds := func(fd *ast.FuncDecl, param int, onlyValueArms bool) (map[string]bool, bool) {
+		out := map[string]bool{}
+		if fd == nil || fd.Type.Params == nil {
+			return nil, false
+		}
+		var params []types.Object
+		for _, f := range fd.Type.Params.List {
+			for _, nm := range f.Names {
+				params = append(params, info.Defs[nm])
+			}
+		}
+		if param >= len(params) {
+			return nil, false
+		}
+		found := false
+		ast.Inspect(fd.Body, func(m ast.Node) bool {
+			ts, ok := m.(*ast.TypeSwitchStmt)
+			if !ok {
+				return true
+			}
+			var x ast.Expr
+			switch a := ts.Assign.(type) {
+			case *ast.AssignStmt:
+				x = a.Rhs[0].(*ast.TypeAssertExpr).X
+			case *ast.ExprStmt:
+				x = a.X.(*ast.TypeAssertExpr).X
+			}
+			id, ok := unparen(x).(*ast.Ident)
+			if !ok || info.ObjectOf(id) != params[param] {
+				return true
+			}
+			found = true
+			for _, s := range ts.Body.List {
+				cc := s.(*ast.CaseClause)
+				if cc.List == nil {
+					continue
+				}
+				if onlyValueArms {
+					// an arm whose only statement returns an error literal yields no value
+					if len(cc.Body) == 1 {
+						if rs, ok := cc.Body[0].(*ast.ReturnStmt); ok && len(rs.Results) == 1 {
+							if u, ok := unparen(rs.Results[0]).(*ast.UnaryExpr); ok && u.Op == token.AND {
+								if cl, ok := u.X.(*ast.CompositeLit); ok && strings.HasSuffix(types.ExprString(cl.Type), "Error") {
+									continue
+								}
+							}
+						}
+					}
+				}
+				for _, e := range cc.List {
+					out[types.ExprString(e)] = true
+				}
+			}
+			return true
+		})
+		return out, found
+	}
+	nav, ok1 := caseKinds(c.Decl(c.Gojq, "funcIndex2"), 1, true)
+	sl, ok2 := caseKinds(c.Decl(c.Gojq, "funcSlice"), 1, true)
+	get, ok3 := caseKinds(c.Decl(c.Gojq, "funcGetpath"), 0, false)
+	if !ok1 || !ok3 {
+		r.Undecided("getpathkinds:anchor", token.NoPos, "the type switches of funcIndex2 (over the navigated value) or funcGetpath were not found")
+		return
+	}
+	if ok2 {
+		for k := range sl {
+			nav[k] = true
+		}
+	}
+	var missing []string
+	for k := range nav {
+		if !get[k] {
+			missing = append(missing, k)
+		}
+	}
+	sort.Strings(missing)
+	r.Check(len(missing) == 0, "getpathkinds", c.Decl(c.Gojq, "funcGetpath").Pos(), "funcGetpath lets funcIndex2 navigate %v; navigation itself yields values from %v: %v %v — `\"abc\" | path(.[1:])` emits a path that `\"abc\" | getpath(…)` refuses, so `(.[1:]) |= f` on a string fails inside the update instead of at the navigation", keysOf(get), keysOf(nav), len(missing) == 0, missing)
+}
+
+// ---------------------------------------------------------------------------------------------------------------------
+// R-C09-discriminator: the printer tells alternatives apart by a field that cannot be empty in the alternative it marks.
+
+func init() {
+	reg(&Rule{ID: "R-C09-discriminator", Props: []string{"C09"}, Floor: 6,
+		Doc: "where a writeTo method chooses between alternatives of a node by comparing a string field with \"\", every grammar action that sets the field feeds it from a token that is never empty (an identifier, a variable, a keyword, a number, a format) — not from a string literal, which may be \"\": `import \"\" as a;` otherwise prints as `include \"\";`",
+		Run: ruleDiscriminator})
+	addDecided("C09", " Emptiness tests that select a printing alternative are on fields fed from never-empty tokens (R-C09-discriminator; D40).")
+}
+
+func ruleDiscriminator(c *Ctx, r *Rep) {
+	y := getYacc(c)
+	if y.Err != "" {
+		r.Undecided("discriminator:grammar", token.NoPos, "%s", y.Err)
+		return
+	}
+	info := c.Gojq.TypesInfo
+	// terminals a symbol can stand for through unit productions
+	var terminals func(sym string, seen map[string]bool) (map[string]bool, bool)
+	rulesOf := map[string][]*YRule{}
+	for _, yr := range y.Rules {
+		rulesOf[yr.LHS] = append(rulesOf[yr.LHS], yr)
+	}
+	terminals = func(sym string, seen map[string]bool) (map[string]bool, bool) {
+		out := map[string]bool{}
+		if len(rulesOf[sym]) == 0 {
+			out[sym] = true
+			return out, true
+		}
+		if seen[sym] {
+			return out, true
+		}
+		seen[sym] = true
+		for _, yr := range rulesOf[sym] {
+			if len(yr.RHS) != 1 || (strings.TrimSpace(yr.Action) != "" && !strings.Contains(yr.Action, "$$ = $1")) {
+				return nil, false
+			}
+			ts, ok := terminals(yr.RHS[0], seen)
+			if !ok {
+				return nil, false
+			}
+			for t := range ts {
+				out[t] = true
+			}
+		}
+		return out, true
+	}
+	// (type, field) -> feeding symbols
+	type tf struct{ t, f string }
+	feeds := map[tf][]string{}
+	reLit := regexp.MustCompile(`&(\w+)\{([^{}]*)\}`)
+	reKV := regexp.MustCompile(`(\w+):\s*\$(\d+)`)
+	for _, yr := range y.Rules {
+		for _, m := range reLit.FindAllStringSubmatch(yr.Action, -1) {
+			for _, kv := range reKV.FindAllStringSubmatch(m[2], -1) {
+				k, _ := strconv.Atoi(kv[2])
+				if k >= 1 && k <= len(yr.RHS) {
+					feeds[tf{m[1], kv[1]}] = append(feeds[tf{m[1], kv[1]}], yr.RHS[k-1])
+				}
+			}
+		}
+	}
+	mayBeEmpty := map[string]bool{"tokString": true}
+	n := 0
+	for _, fd := range c.Decls(c.Gojq) {
+		if c.PhysFile(fd.Pos()) != "query.go" || fd.Name.Name != "writeTo" {
+			continue
+		}
+		tn := recvTypeName(fd)
+		ast.Inspect(fd.Body, func(m ast.Node) bool {
+			ifs, ok := m.(*ast.IfStmt)
+			if !ok {
+				return true
+			}
+			ast.Inspect(ifs.Cond, func(q ast.Node) bool {
+				b, ok := q.(*ast.BinaryExpr)
+				if !ok || (b.Op != token.EQL && b.Op != token.NEQ) {
+					return true
+				}
+				if s, ok := constString(info, b.Y); !ok || s != "" {
+					return true
+				}
+				sel, ok := unparen(b.X).(*ast.SelectorExpr)
+				if !ok {
+					return true
+				}
+				// the node type that owns the field
+				owner := tn
+				if s := info.Selections[sel]; s != nil {
+					if nt := namedOf(s.Recv()); nt != nil {
+						owner = nt.Obj().Name()
+					}
+				}
+				syms := feeds[tf{owner, sel.Sel.Name}]
+				if len(syms) == 0 {
+					return true // not set from a grammar symbol directly (a field filled by the lexer's token of another rule shape)
+				}
+				n++
+				key := fmt.Sprintf("discriminator:%s.%s", owner, sel.Sel.Name)
+				var bad, und []string
+				for _, sy := range syms {
+					ts, ok := terminals(sy, map[string]bool{})
+					if !ok {
+						und = append(und, sy)
+						continue
+					}
+					for t := range ts {
+						if mayBeEmpty[t] {
+							bad = append(bad, sy)
+						}
+					}
+				}
+				switch {
+				case len(bad) > 0:
+					r.Bad(key, b.Pos(), "%s.writeTo tells alternatives apart by `%s`, but the grammar feeds %s.%s from %v, a string literal, which may be empty: the alternative is then printed as the other one (`import \"\" as a;` prints as `include \"\";` and re-parses to a different node)", tn, c.Src(b), owner, sel.Sel.Name, bad)
+				case len(und) > 0:
+					r.Undecided(key, b.Pos(), "%s.%s is fed from %v, which this rule cannot reduce to terminals", owner, sel.Sel.Name, und)
+				default:
+					r.OK(key, b.Pos(), "%s.%s is fed from %v: never empty", owner, sel.Sel.Name, syms)
+				}
+				return true
+			})
+			return true
+		})
+	}
+	if n == 0 {
+		r.Undecided("discriminator:census", token.NoPos, "no emptiness test on a grammar-fed field in the printer")
 	}
 }
